@@ -90,7 +90,8 @@ func (t *transport) ReadMsg() (messages.Common, error) {
 
 	// checking that response is not error code
 	if len(data) == tl.WordLen {
-		code := int(binary.LittleEndian.Uint32(data))
+		// code is signed (like -404), so reading it as int32
+		code := int(int32(binary.LittleEndian.Uint32(data)))
 		return nil, ErrCode(code)
 	}
 
